@@ -1,7 +1,7 @@
 #!/usr/bin/env python3
 """Prints the prompt given to a fresh sub-agent that has to break one property (it sees only the property text)."""
 import json, sys
-pid = sys.argv[1]; wt = sys.argv[2]
+pid = sys.argv[1]; wt = sys.argv[2]; avoid = sys.argv[3] if len(sys.argv) > 3 else ''
 for l in open('/verif/properties.jsonl'):
     d = json.loads(l)
     if d['id'] == pid:
@@ -15,7 +15,7 @@ STATEMENT: {d['statement']}
 QUANTIFIED OVER: {d['quantifier']['text']}
 CODE ANCHORS: files {', '.join(d['anchors']['files'])}
 
-YOUR TASK: produce ONE realistic source change (a plausible bug a maintainer could introduce in a refactor/optimisation: an off-by-one, a wrong index, a swapped argument, a dropped reset, a changed tolerance, a wrong boundary condition, two cooperating sites that each look fine alone ...) to the library sources under {wt}/src (NOT the tests) that BREAKS this property while the library still compiles and the existing test-suite still passes. Prefer a change that needs something specific to manifest (an unusual shape or size, a particular option value, a multi-step sequence of calls, a particular thread count, an input pattern ordinary use would not hit at once) over one that breaks every call. Do not make a change that is trivially visible (e.g. returning garbage for all inputs).
+YOUR TASK: produce ONE realistic source change (a plausible bug a maintainer could introduce in a refactor/optimisation: an off-by-one, a wrong index, a swapped argument, a dropped reset, a changed tolerance, a wrong boundary condition, two cooperating sites that each look fine alone ...) to the library sources under {wt}/src (NOT the tests) that BREAKS this property while the library still compiles and the existing test-suite still passes. Prefer a change that needs something specific to manifest (an unusual shape or size, a particular option value, a multi-step sequence of calls, a particular thread count, an input pattern ordinary use would not hit at once) over one that breaks every call. Do not make a change that is trivially visible (e.g. returning garbage for all inputs).{(" An earlier exercise already used this change: '" + avoid + "' - choose a DIFFERENT function and a different clause of the property.") if avoid else ""}
 
 Steps:
 1. Read the relevant code. Build the unchanged tree: cmake -G Ninja -S {wt} -B {wt}/_b -DCMAKE_BUILD_TYPE=RelWithDebInfo -DCMAKE_C_FLAGS=-Wno-error && cmake --build {wt}/_b -j8 . The test binaries are in {wt}/_b/src/tests (run each from that directory; a test passes when it exits 0; 'testica' aborts on the unchanged tree already, ignore it). The whole suite takes several minutes (testpca/testpls/testcpca are slow); run at least the test binaries that cover the files you touch before AND after your change and confirm they still pass (exit status 0 and the same "<name>: OK" lines).
